@@ -50,6 +50,7 @@ def vatti(ctx):
     import json, os
     exe = core.build("plain", ("vatti",))
     vj = [{"seed": ctx.seed * 1000 + 700 + k, "n": 30 if ctx.quick else 150, "R": [32, 48, 64][k % 3], "maxpaths": 2 + k % 2, "out": ctx.path("vatti_%02d.ndjson" % k)} for k in range(8 if ctx.quick else 16)]
+    vj += [{"fam": "walk", "seed": ctx.seed * 1000 + 800 + k, "n": 60 if ctx.quick else 400, "grid": 6, "mul": 1 + k % 2, "out": ctx.path("vattiw_%02d.ndjson" % k)} for k in range(4 if ctx.quick else 8)]
     def one(j):
         cmd = [exe, "vatti"]
         for k, v in j.items():
